@@ -415,43 +415,25 @@ impl Op {
     }
 }
 
-/// Full alphabets (thorough). `reduced` = the quick subset for the two big families.
-fn alphabet(f: Fam, reduced: bool) -> Vec<Op> {
+/// Operations per family. Payloads a,b; expiry none/1000/2000; hash fields f,g.
+fn alphabet(f: Fam) -> Vec<Op> {
     match f {
-        Fam::LwwHash => {
-            if reduced {
-                vec![
-                    Op::Set("a", None),
-                    Op::Set("b", None),
-                    Op::Set("a", Some(1000)),
-                    Op::Set("b", Some(2000)),
-                    Op::Del,
-                    Op::HSet("f", "a"),
-                    Op::HSet("f", "b"),
-                    Op::HSet("g", "a"),
-                    Op::HSet2,
-                    Op::HDel("f"),
-                    Op::HDel("g"),
-                ]
-            } else {
-                vec![
-                    Op::Set("a", None),
-                    Op::Set("b", None),
-                    Op::Set("a", Some(1000)),
-                    Op::Set("b", Some(1000)),
-                    Op::Set("a", Some(2000)),
-                    Op::Set("b", Some(2000)),
-                    Op::Del,
-                    Op::HSet("f", "a"),
-                    Op::HSet("f", "b"),
-                    Op::HSet("g", "a"),
-                    Op::HSet("g", "b"),
-                    Op::HSet2,
-                    Op::HDel("f"),
-                    Op::HDel("g"),
-                ]
-            }
-        }
+        Fam::LwwHash => vec![
+            Op::Set("a", None),
+            Op::Set("b", None),
+            Op::Set("a", Some(1000)),
+            Op::Set("b", Some(1000)),
+            Op::Set("a", Some(2000)),
+            Op::Set("b", Some(2000)),
+            Op::Del,
+            Op::HSet("f", "a"),
+            Op::HSet("f", "b"),
+            Op::HSet("g", "a"),
+            Op::HSet("g", "b"),
+            Op::HSet2,
+            Op::HDel("f"),
+            Op::HDel("g"),
+        ],
         Fam::Causal => vec![
             Op::Set("a", None),
             Op::Set("b", Some(1000)),
@@ -495,7 +477,7 @@ impl Ev {
         let r = w[0].strip_prefix('r')?.parse::<usize>().ok()?.checked_sub(1)?;
         let t = w[1].strip_prefix("clock->")?.parse::<u64>().ok()? + 1;
         let name = w[2..].join(" ");
-        let op = alphabet(fam, false).into_iter().find(|o| o.name() == name)?;
+        let op = alphabet(fam).into_iter().find(|o| o.name() == name)?;
         Some(Ev::Local { r, t, op })
     }
 }
@@ -1247,25 +1229,17 @@ fn replay_inner(r: &Value) -> bool {
 
 struct Bounds {
     fam: Fam,
-    reduced: bool,
     t_max: u64,
     depth_pairs: usize,
     depth_triples: usize,
 }
 
 fn bounds(tier: Tier) -> Vec<Bounds> {
-    let q = tier == Tier::Quick;
-    let exp = std::env::var("C07_EXP").ok();
-    let e: Vec<usize> = exp.as_deref().unwrap_or("").split(',').filter_map(|x| x.parse().ok()).collect();
-    let g = |i: usize, d: usize| e.get(i).copied().unwrap_or(d);
-    vec![
-        Bounds { fam: Fam::LwwHash, reduced: g(0, q as usize) == 1, t_max: g(1, tier.pick(2, 3)) as u64, depth_pairs: g(2, 3), depth_triples: g(3, tier.pick(1, 2)) },
-        Bounds { fam: Fam::Causal, reduced: false, t_max: g(4, 2) as u64, depth_pairs: g(5, 3), depth_triples: g(6, tier.pick(1, 2)) },
-        Bounds { fam: Fam::GCounter, reduced: false, t_max: g(7, 2) as u64, depth_pairs: g(8, tier.pick(3, 4)), depth_triples: g(9, 2) },
-        Bounds { fam: Fam::PNCounter, reduced: false, t_max: g(7, 2) as u64, depth_pairs: g(8, tier.pick(3, 4)), depth_triples: g(9, 2) },
-        Bounds { fam: Fam::GSet, reduced: false, t_max: g(7, 2) as u64, depth_pairs: g(8, tier.pick(3, 4)), depth_triples: g(9, 2) },
-        Bounds { fam: Fam::ORSet, reduced: false, t_max: g(7, 2) as u64, depth_pairs: g(8, tier.pick(3, 4)), depth_triples: g(9, 2) },
-    ]
+    // quick: R2 = depth <= 3, R3 = depth <= 2; thorough: R2 = depth <= 4, R3 = depth <= 3.
+    // Local operations are stamped with Lamport times <= 3 (deliveries may push a clock beyond).
+    FAMS.iter()
+        .map(|f| Bounds { fam: *f, t_max: 3, depth_pairs: tier.pick(3, 4), depth_triples: tier.pick(2, 3) })
+        .collect()
 }
 
 fn operand_json(f: &Found) -> Value {
@@ -1350,7 +1324,7 @@ fn main() {
     let mut transitions = 0u64;
     let bnds = bounds(args.tier);
     for b in &bnds {
-        let alpha = alphabet(b.fam, b.reduced);
+        let alpha = alphabet(b.fam);
         let before = found.len();
         let s = explore(b.fam, &alpha, b.t_max, b.depth_pairs, &mut found);
         worlds += s.worlds;
